@@ -18,7 +18,7 @@ REGRESS_TARGET = {"F1": ["C01"], "F2": ["C01"], "F3": ["C04", "C01", "C11"], "F4
 
 # seeded changes whose site belongs to another property than the one the agent was given: the check of the
 # property that owns the site is the one expected to fire (reason recorded in DESIGN.md §8)
-ALT_TARGET = {"C06-D": ["C06", "C19"]}   # Python wrapper replaces `data is None` by Python truthiness: a wrapper defect (C19 K1)
+ALT_TARGET = {"C06-D": ["C19"]}   # given for C06; the Python wrapper replaces `data is None` by Python truthiness: a wrapper defect (C19 K1)
 
 
 def jobs():
